@@ -95,7 +95,7 @@ PLAN = {
         'note': COMMON_TRUST + 'Not proved: the round-trip lemma (the word part, colon mode, of a candidate p+core+t re-wrapped equals the candidate) and uniqueness-based conclusion "points at that same candidate" -- covered by the bounded check learn_recall (same context, restart, suffixed forms, punctuated first typing); serde round trip and disk atomicity are not decided.',
     },
     'C10': {
-        'bounded': ['user_files'],
+        'bounded': ['user_files', 'update_engine'],
         'level': 'proof',
         'units': ['pmeth', 'phon'],
         'technique': 'Verus with adversarial environment stubs: fs/serde/time functions may fail or return anything; unwrap preconditions must hold for every outcome',
@@ -131,8 +131,8 @@ PLAN = {
         'level': 'proof',
         'units': ['fixed_pkv_on', 'fixed_session'],
         'technique': 'Verus: process_key_value with the option on == transition function step_on (pending-sign state machine); termination; session/backspace clauses',
-        'claim': 'Proof that with the option on every key is exactly one step of the pending-sign state machine written from the statement (capture, carry across hasanta, re-attach, two-part fusion, destroy-or-vowelise), that the recursion terminates, that a waiting sign counts as a session (under every setting of the other helpers) and is discarded by one backspace.',
-        'note': COMMON_TRUST + 'The word-level equivalence with Unicode-order typing is proved only for the single-consonant syllable lemma so far (bounded: fixed_rules compares typewriter-order and Unicode-order typing of syllable words); the ra + zo-fola defect found this way is repaired in /repo (known_findings.json).',
+        'claim': 'Proof that with the option on every key is exactly one step of the pending-sign state machine written from the statement (capture, carry across hasanta, re-attach, two-part fusion, destroy-or-vowelise), that the recursion terminates, that a waiting sign counts as a session (under every setting of the other helpers) and is discarded by one backspace.  Word level (spec-level theorem lemma_c14_word over the two proved step functions, by induction over syllables and conjunct length): for every word made of syllables conjunct C(HC)* + optional vowel sign, typed from any text that does not end in hasanta, typewriter order with the option on (left-standing sign first; ো / ৌ as ে before + া / ৌ after, or the AU length mark) yields exactly the text of Unicode order with the option off, under every setting of the other helper options, and leaves no sign waiting.',
+        'note': COMMON_TRUST + 'The word-level theorem covers key values of one code point each and consonants of the explicit consonant set; fused layout values and words that start right after a hasanta are only in the bounded check fixed_rules (typewriter-order vs Unicode-order typing of syllable words); the ra + zo-fola defect found this way is repaired in /repo (known_findings.json).',
     },
     'C15': {
         'bounded': ['fixed_api'], 'data': ['tables'],
